@@ -187,6 +187,18 @@ FULL = {
     'linbasex-3angles-orders024': "lambda IM: abel.linbasex.linbasex_transform_full(IM, basis_dir=None, proj_angles=[0, np.pi/4, np.pi/2], legendre_orders=[0, 2, 4])[0]",
     'linbasex-wrapper': "lambda IM: abel.linbasex.linbasex_transform(IM, basis_dir=None)",
 }
+# every documented option family of linbasex; [0] = image, [3] = projections are linear by definition
+# ([2] = Beta is normalised to its maximum and thresholded: NOT linear, not tested; [1] = radial does not depend on the data)
+for _on, _o in (('smoothing', 'smoothing=1.5'), ('smoothing-large', 'smoothing=4'), ('radial_step2', 'radial_step=2'),
+                ('clip', 'clip=2'), ('radial_step2-clip-smoothing', 'radial_step=2, clip=1, smoothing=1'),
+                ('threshold-norm_range', 'threshold=0.6, norm_range=(2, 5)'), ('rcond', 'rcond=0.05'),
+                ('orders012', 'legendre_orders=[0, 1, 2]'), ('orders0', 'legendre_orders=[0], proj_angles=[0]'),
+                ('angles4', 'proj_angles=[0, np.pi/6, np.pi/3, np.pi/2], legendre_orders=[0, 2, 4], smoothing=1')):
+    FULL['linbasex-%s-image' % _on] = "lambda IM: abel.linbasex.linbasex_transform_full(IM, basis_dir=None, %s)[0]" % _o
+    FULL['linbasex-%s-projections' % _on] = "lambda IM: abel.linbasex.linbasex_transform_full(IM, basis_dir=None, %s)[3]" % _o
+FULL['linbasex-wrapper-smoothing'] = "lambda IM: abel.linbasex.linbasex_transform(IM, basis_dir=None, smoothing=2)"
+FULL['Transform-linbasex-smoothing'] = ("lambda IM: abel.Transform(IM, method='linbasex', transform_options=dict(basis_dir=None, smoothing=1.5, "
+                                        "legendre_orders=[0, 2, 4], proj_angles=[0, np.pi/4, np.pi/2])).transform")
 for _d in ('forward', 'inverse'):
     FULL['rbasex-%s-image' % _d] = "lambda IM: abel.rbasex.rbasex_transform(IM, direction=%r, order=2)[0]" % _d
     FULL['rbasex-%s-distr' % _d] = "lambda IM: abel.rbasex.rbasex_transform(IM, direction=%r, order=2)[1].cos()" % _d
@@ -267,8 +279,10 @@ if clause == 'dtype':
     sys.exit(0 if d <= rtol * scale else 1)
     TX = T(X); d = dev(T(a * X), a * TX); scale = a * float(np.max(np.abs(TX)))
 else:
-    TX, TY = T(X), T(Y); d = dev(T(a * X + b * Y), a * TX + b * TY)
+    TX, TY = T(X), T(Y)
     scale = abs(a) * float(np.max(np.abs(TX))) + abs(b) * float(np.max(np.abs(TY)))
+    # combination with coefficients of both signs, plain additivity, plain homogeneity with a negative factor
+    d = max(dev(T(a * X + b * Y), a * TX + b * TY), dev(T(X + Y), TX + TY), dev(T(-2.5 * X), -2.5 * TX))
 print('%%s %%dx%%d clause=%%s: deviation %%.3e, scale of the outputs %%.3e (relative tolerance %%.1e)' %% (name, size, size, clause, d, scale, rtol))
 sys.exit(0 if d <= rtol * scale else 1)
 '''
@@ -481,7 +495,7 @@ def search(ctx, rng, enlarged):
                     try:
                         if clause == 'linear':
                             TX, TY = TF(X), TF(Y)
-                            d = dev(TF(a * X + b * Y), a * TX + b * TY)
+                            d = max(dev(TF(a * X + b * Y), a * TX + b * TY), dev(TF(X + Y), TX + TY), dev(TF(-2.5 * X), -2.5 * TX))
                             scale = abs(a) * float(np.max(np.abs(TX))) + abs(b) * float(np.max(np.abs(TY)))
                         else:
                             TX = TF(X)
